@@ -134,7 +134,7 @@ Proof.
   assert (Hm : wal s < m) by lia.
   assert (Hp : m <= 2 ^ N.log2_up m) by (apply pow2_log2_up_ge; lia).
   set (t := 2 ^ N.log2_up m) in *. clearbody t.
-  set (s' := mkC (cpe s) (dend s + (t - wal s)) t (tcap s) (tseq s) (iss s) (vec s) (pend s) (stored s) (move (t - wal s) (fend s))).
+  set (s' := mkC (cpe s + (t - wal s)) (dend s + (t - wal s)) t (tcap s) (tseq s) (iss s) (vec s) (pend s) (stored s) (move (t - wal s) (fend s))).
   assert (Hl : limit s <= limit s') by (apply limit_mono; [reflexivity|unfold s'; cbn [wal]; lia]).
   pose proof (move_le (t - wal s) (fend s)) as Hmv.
   unfold s' in *. clear s'. unfold top in *.
